@@ -2,4 +2,6 @@
 EXTENDS ObserveGossip
 MC_Node == {"n1", "n2", "n3", "n4", "n5"}
 MC_Cluster == [n \in Node |-> "c"]
+MC_ClusterSplit == [n \in Node |-> IF n = "n3" THEN "C" ELSE "c"]
+MC_Cluster5 == [n \in Node |-> CASE n = "n3" -> "C" [] n = "n4" -> "cc" [] n = "n5" -> "" [] OTHER -> "c"]
 ====
